@@ -50,14 +50,22 @@ var clock uint64
 func tick() uint64 { return atomic.AddUint64(&clock, 1) }
 
 // show reads what a Name shows: (ID, Name); a nil id pointer (cleared Name) is reported as id 0.
-func show(n *namepool.Name) (uint64, string) {
+// The text is copied here, under recover: if the implementation lets two goroutines share one Name object the
+// string header can be torn (nil data, non-zero length) and must become an observable, not a harness crash.
+func show(n *namepool.Name) (id uint64, text string) {
 	if n == nil {
 		return 0, ""
 	}
+	defer func() {
+		if r := recover(); r != nil {
+			id, text = 0, "!torn"
+		}
+	}()
+	text = string(append([]byte(nil), n.Name()...))
 	if reflect.ValueOf(n).Elem().FieldByName("id").IsNil() {
-		return 0, n.Name()
+		return 0, text
 	}
-	return n.ID(), n.Name()
+	return n.ID(), text
 }
 
 type worker struct {
